@@ -1,7 +1,808 @@
 package main
 
-type Scenario struct{}
-type ScenarioOutcome struct{}
+import (
+	"bytes"
+	"encoding/base64"
+	"fmt"
+	"os"
+	"path/filepath"
+	"regexp"
+	"sort"
+	"strconv"
+	"strings"
+	"sync"
+	"time"
+)
 
-func runC19(tier string) int                    { return 2 }
-func replayC19(rf *ReplayFile, path string) int { return 2 }
+// ---------- scenario = (argv, world, fault plan), all explicit ----------
+
+type Fault struct {
+	Kind    string `json:"kind"`              // fsize | nofile | strace
+	K       int    `json:"k,omitempty"`       // fsize: bytes; nofile: descriptors
+	Target  string `json:"target,omitempty"`  // src | dst
+	Syscall string `json:"syscall,omitempty"` // openat | read | write | newfstatat | close | fstat
+	When    int    `json:"when,omitempty"`
+	Errno   string `json:"errno,omitempty"`
+}
+
+func (f *Fault) String() string {
+	if f == nil {
+		return "none"
+	}
+	switch f.Kind {
+	case "fsize", "nofile":
+		return fmt.Sprintf("%s=%d", f.Kind, f.K)
+	}
+	return fmt.Sprintf("strace:%s:%s:%s:when=%d", f.Target, f.Syscall, f.Errno, f.When)
+}
+
+type Scenario struct {
+	Seed           uint64   `json:"seed"`
+	ProgName       string   `json:"prog_name"`
+	Header         []string `json:"header"`
+	Body           []string `json:"body"`
+	RawSrc         string   `json:"raw_src_b64,omitempty"` // corpus original, verbatim bytes (Header/Body hold its comment-free form)
+	Enc            string   `json:"enc"`                   // ascii | sjis | utf8 | raw-utf8 | raw-sjis
+	DecoSeed       uint64   `json:"deco_seed"`
+	CRLF           bool     `json:"crlf,omitempty"`
+	NoFinalNL      bool     `json:"no_final_nl,omitempty"`
+	Break          int      `json:"break,omitempty"` // >0: token damage of kind Break-1 on line BreakLine (source must then fail to parse)
+	BreakLine      int      `json:"break_line,omitempty"`
+	Shape          string   `json:"argv_shape"` // none | src | src-dst | src-dst-lst | four | d-src-dst | v | help | badflag | d-only
+	SrcKind        string   `json:"src_kind"`
+	DstKind        string   `json:"dst_kind"`
+	DstPrefillSeed uint64   `json:"dst_prefill_seed,omitempty"`
+	LstKind        string   `json:"lst_kind,omitempty"` // ok | parent_missing
+	Uid            int      `json:"uid"`
+	Fault          *Fault   `json:"fault,omitempty"`
+}
+
+type ScenarioOutcome struct {
+	Exit         int      `json:"exit"`
+	Signal       string   `json:"signal,omitempty"`
+	Output       string   `json:"output"`
+	Argv         []string `json:"argv"`
+	Cmdline      []string `json:"cmdline"`
+	DstPre       string   `json:"dst_pre"`
+	DstPost      string   `json:"dst_post"`
+	ImageClass   string   `json:"image_class"`
+	ImageSha     string   `json:"image_sha,omitempty"`
+	ImageLen     int      `json:"image_len"`
+	PartialKind  string   `json:"partial_kind,omitempty"`
+	FaultFired   int      `json:"fault_fired"`
+	FaultLines   []string `json:"fault_lines,omitempty"`
+	WorldChanges []string `json:"world_changes,omitempty"`
+	Expect       string   `json:"expect"`
+	HealExit     *int     `json:"heal_exit,omitempty"`
+	HealDstPost  string   `json:"heal_dst_post,omitempty"`
+	WallMs       int64    `json:"wall_ms"`
+
+	dstAbsForJudge string
+}
+
+// ---------- source materialisation ----------
+
+func stripComment(line string) string {
+	inq := byte(0)
+	for i := 0; i < len(line); i++ {
+		c := line[i]
+		if inq != 0 {
+			if c == inq {
+				inq = 0
+			}
+			continue
+		}
+		if c == '"' || c == '\'' {
+			inq = c
+			continue
+		}
+		if c == ';' || c == '#' {
+			return strings.TrimRight(line[:i], " \t")
+		}
+	}
+	return strings.TrimRight(line, " \t\r")
+}
+
+func plainLinesOfRaw(raw []byte) []string {
+	var out []string
+	for _, l := range strings.Split(strings.ReplaceAll(string(raw), "\r\n", "\n"), "\n") {
+		out = append(out, stripComment(l))
+	}
+	// drop trailing empties
+	for len(out) > 0 && out[len(out)-1] == "" {
+		out = out[:len(out)-1]
+	}
+	return out
+}
+
+func commentText(r *RNG, enc string) []byte {
+	n := r.Range(0, 14)
+	var b []byte
+	// bias: sometimes end the comment with a 0x5c / 0x7c trail character or half-width kana
+	for i := 0; i < n; i++ {
+		var c cchar
+		for {
+			c = commentChars[r.Intn(len(commentChars))]
+			if c.Cls == "ascii" && r.Chance(2, 3) {
+				continue
+			}
+			break
+		}
+		if i == n-1 && r.Chance(1, 2) {
+			for c.Cls != "t5c" && c.Cls != "t7c" && c.Cls != "half" {
+				c = commentChars[r.Intn(len(commentChars))]
+			}
+		}
+		if c.U == "\t" || enc == "ascii" && c.Cls != "ascii" {
+			if enc == "ascii" {
+				b = append(b, byte('a'+r.Intn(26)))
+			}
+			continue
+		}
+		if enc == "sjis" {
+			b = append(b, c.S...)
+		} else {
+			b = append(b, c.U...)
+		}
+	}
+	return b
+}
+
+func breakLine(kind int, l string) string {
+	switch kind % 4 {
+	case 0:
+		return l + " ,,"
+	case 1:
+		return "\tMOV\t[,AX"
+	case 2:
+		return "\"unterminated"
+	default:
+		return "\tDB\t1 2 3 ]"
+	}
+}
+
+// materialise returns (bytes of the source file as written, bytes of its comment-free form).
+func (s *Scenario) materialise() (src []byte, plain []byte) {
+	lines := append(append([]string(nil), s.Header...), s.Body...)
+	if s.Break > 0 && len(lines) > 0 {
+		lines[s.BreakLine%len(lines)] = breakLine(s.Break-1, lines[s.BreakLine%len(lines)])
+	}
+	nl := "\n"
+	if s.CRLF {
+		nl = "\r\n"
+	}
+	join := func(ls [][]byte) []byte {
+		var b bytes.Buffer
+		for i, l := range ls {
+			b.Write(l)
+			if i < len(ls)-1 || !s.NoFinalNL {
+				b.WriteString(nl)
+			}
+		}
+		return b.Bytes()
+	}
+	var pl [][]byte
+	for _, l := range lines {
+		pl = append(pl, []byte(l))
+	}
+	plain = join(pl)
+	if s.RawSrc != "" && s.Break == 0 {
+		raw, _ := base64.StdEncoding.DecodeString(s.RawSrc)
+		return raw, plain
+	}
+	if s.Enc == "ascii" && s.DecoSeed == 0 {
+		return plain, plain
+	}
+	r := NewRNG(s.DecoSeed)
+	var dl [][]byte
+	dl = append(dl, append([]byte("; "), commentText(r, s.Enc)...))
+	pl2 := [][]byte{[]byte("")}
+	for _, l := range lines {
+		d := []byte(l)
+		if r.Chance(1, 2) {
+			mark := ";"
+			if r.Chance(1, 6) {
+				mark = "#"
+			}
+			sep := pick(r, []string{"\t", " ", "\t\t", ""})
+			if l == "" {
+				sep = ""
+			}
+			d = append(d, (sep + mark + pick(r, []string{" ", "", "\t"}))...)
+			d = append(d, commentText(r, s.Enc)...)
+		}
+		dl = append(dl, d)
+		pl2 = append(pl2, []byte(l))
+		if r.Chance(1, 8) { // own-line comment
+			dl = append(dl, append([]byte(pick(r, []string{";", "; ", "\t; ", "# "})), commentText(r, s.Enc)...))
+			pl2 = append(pl2, []byte(""))
+		}
+	}
+	// The comment-free form keeps the same line structure (blank lines where own-line comments
+	// were), so that only comments differ between the two files.
+	return join(dl), join(pl2)
+}
+
+// ---------- world ----------
+
+type worldPaths struct {
+	W              string
+	SrcArg, DstArg string // as passed on argv
+	LstArg         string
+	SrcAbs, DstAbs string // for the harness to inspect (DstAbs = where bytes land, after symlinks)
+}
+
+const nobody = 65534
+
+func describePath(p string) string {
+	st, err := os.Stat(p)
+	if err != nil {
+		if _, lerr := os.Lstat(p); lerr == nil {
+			return "dangling-symlink"
+		}
+		return "absent"
+	}
+	if st.IsDir() {
+		return "dir"
+	}
+	if !st.Mode().IsRegular() {
+		return "special:" + st.Mode().Type().String()
+	}
+	b, err := os.ReadFile(p)
+	if err != nil {
+		return "unreadable"
+	}
+	return fmt.Sprintf("file:%s:%d", shaHex(b), len(b))
+}
+
+func snapshotWorld(root string) map[string]string {
+	m := map[string]string{}
+	filepath.Walk(root, func(p string, info os.FileInfo, err error) error {
+		if err != nil {
+			return nil
+		}
+		rel, _ := filepath.Rel(root, p)
+		switch {
+		case info.Mode()&os.ModeSymlink != 0:
+			t, _ := os.Readlink(p)
+			m[rel] = "symlink:" + t
+		case info.IsDir():
+			m[rel] = fmt.Sprintf("dir:%o", info.Mode().Perm())
+		default:
+			b, err := os.ReadFile(p)
+			if err != nil {
+				m[rel] = fmt.Sprintf("file:unreadable:%o", info.Mode().Perm())
+			} else {
+				m[rel] = fmt.Sprintf("file:%s:%d:%o", shaHex(b)[:16], len(b), info.Mode().Perm())
+			}
+		}
+		return nil
+	})
+	return m
+}
+
+func (s *Scenario) buildWorld(W string, src []byte, image []byte) (*worldPaths, error) {
+	wp := &worldPaths{W: W}
+	must := func(err error) {
+		if err != nil {
+			panic(modelErr("world: " + err.Error()))
+		}
+	}
+	must(os.MkdirAll(filepath.Join(W, "in"), 0777))
+	must(os.MkdirAll(filepath.Join(W, "out"), 0777))
+	os.Chmod(W, 0777)
+	os.Chmod(filepath.Join(W, "in"), 0777)
+	os.Chmod(filepath.Join(W, "out"), 0777)
+	r := NewRNG(s.Seed ^ 0xabcdef)
+	srcName := pick(r, []string{"prog.nas", "ipl.nas", "a.nas", "haribote.asm"})
+	dstName := pick(r, []string{"o.bin", "out.obj", "ipl.bin", "naskfunc.obj", "x"})
+	srcAbs := filepath.Join(W, "in", srcName)
+	// --- source ---
+	switch s.SrcKind {
+	case "file", "":
+		must(os.WriteFile(srcAbs, src, 0644))
+	case "missing":
+	case "dir":
+		must(os.Mkdir(srcAbs, 0755))
+	case "mode000":
+		must(os.WriteFile(srcAbs, src, 0644))
+		must(os.Chmod(srcAbs, 0))
+	case "symlink_ok":
+		real := filepath.Join(W, "in", "real_"+srcName)
+		must(os.WriteFile(real, src, 0644))
+		must(os.Symlink(real, srcAbs))
+	case "dangling":
+		must(os.Symlink(filepath.Join(W, "in", "nothing-here"), srcAbs))
+	case "loop":
+		other := filepath.Join(W, "in", "loop2")
+		must(os.Symlink(other, srcAbs))
+		must(os.Symlink(srcAbs, other))
+	case "spacename":
+		srcAbs = filepath.Join(W, "in", "my prog (1).nas")
+		must(os.WriteFile(srcAbs, src, 0644))
+	case "nonascii_name":
+		srcAbs = filepath.Join(W, "in", "ソース表.nas")
+		must(os.WriteFile(srcAbs, src, 0644))
+	case "longname":
+		srcAbs = filepath.Join(W, "in", strings.Repeat("n", 300)+".nas")
+	case "same_as_dst":
+		srcAbs = filepath.Join(W, "out", dstName)
+		must(os.WriteFile(srcAbs, src, 0644))
+	default:
+		panic(modelErr("unknown src kind " + s.SrcKind))
+	}
+	wp.SrcAbs, wp.SrcArg = srcAbs, srcAbs
+	// --- destination ---
+	dstAbs := filepath.Join(W, "out", dstName)
+	dstArg := dstAbs
+	pre := func(n int) []byte { return genGarbage(s.DstPrefillSeed, n) }
+	switch s.DstKind {
+	case "absent", "":
+	case "empty":
+		must(os.WriteFile(dstAbs, nil, 0644))
+	case "shorter":
+		n := len(image) / 2
+		must(os.WriteFile(dstAbs, pre(n), 0644))
+	case "equal":
+		must(os.WriteFile(dstAbs, pre(len(image)), 0644))
+	case "longer":
+		must(os.WriteFile(dstAbs, pre(len(image)+1+int(s.DstPrefillSeed%5000)), 0644))
+	case "old_image":
+		old := append([]byte(nil), image...)
+		if len(old) > 3 {
+			old[len(old)/2] ^= 0x55
+		}
+		old = append(old, 0xEE, 0xEE)
+		must(os.WriteFile(dstAbs, old, 0644))
+	case "ro_file":
+		must(os.WriteFile(dstAbs, pre(10), 0444))
+	case "ro_dir":
+		d := filepath.Join(W, "rodir")
+		must(os.Mkdir(d, 0555))
+		os.Chmod(d, 0555)
+		dstAbs = filepath.Join(d, dstName)
+		dstArg = dstAbs
+	case "parent_missing":
+		dstAbs = filepath.Join(W, "nodir", "sub", dstName)
+		dstArg = dstAbs
+	case "parent_is_file":
+		must(os.WriteFile(filepath.Join(W, "afile"), []byte("x"), 0666))
+		dstAbs = filepath.Join(W, "afile", dstName)
+		dstArg = dstAbs
+	case "is_dir":
+		must(os.Mkdir(dstAbs, 0777))
+	case "symlink_file":
+		tgt := filepath.Join(W, "out", "target.bin")
+		must(os.WriteFile(tgt, pre(len(image)+9), 0644))
+		must(os.Symlink(tgt, dstAbs))
+	case "dangling_symlink":
+		must(os.Symlink(filepath.Join(W, "out", "newtarget.bin"), dstAbs))
+	case "dev_full":
+		dstAbs, dstArg = "/dev/full", "/dev/full"
+	case "relative":
+		dstArg = filepath.Join("out", dstName)
+	case "dotdot":
+		dstArg = filepath.Join("in", "..", "out", dstName)
+	case "longname":
+		dstAbs = filepath.Join(W, "out", strings.Repeat("d", 300))
+		dstArg = dstAbs
+	default:
+		panic(modelErr("unknown dst kind " + s.DstKind))
+	}
+	if s.SrcKind == "same_as_dst" {
+		if s.DstKind != "absent" && s.DstKind != "" {
+			panic(modelErr("same_as_dst needs dst kind absent"))
+		}
+	}
+	wp.DstAbs, wp.DstArg = dstAbs, dstArg
+	switch s.LstKind {
+	case "ok":
+		wp.LstArg = filepath.Join(W, "out", "list.lst")
+	case "parent_missing":
+		wp.LstArg = filepath.Join(W, "nolist", "list.lst")
+	}
+	if s.Uid != 0 {
+		// hand the world to the unprivileged user, except the objects whose point is that it cannot touch them
+		filepath.Walk(W, func(p string, info os.FileInfo, err error) error {
+			if err != nil {
+				return nil
+			}
+			if s.DstKind == "ro_file" && p == dstAbs {
+				return nil
+			}
+			if s.DstKind == "ro_dir" && p == filepath.Join(W, "rodir") {
+				return nil
+			}
+			os.Lchown(p, nobody, nobody)
+			return nil
+		})
+	}
+	return wp, nil
+}
+
+func (s *Scenario) argv(wp *worldPaths) []string {
+	switch s.Shape {
+	case "none":
+		return nil
+	case "src":
+		return []string{wp.SrcArg}
+	case "src-dst":
+		return []string{wp.SrcArg, wp.DstArg}
+	case "src-dst-lst":
+		return []string{wp.SrcArg, wp.DstArg, wp.LstArg}
+	case "four":
+		return []string{wp.SrcArg, wp.DstArg, wp.LstArg, "extra"}
+	case "d-src-dst":
+		return []string{"-d", wp.SrcArg, wp.DstArg}
+	case "d-only":
+		return []string{"-d"}
+	case "v":
+		return []string{"-v"}
+	case "help":
+		return []string{"--help"}
+	case "badflag":
+		return []string{"-x", wp.SrcArg, wp.DstArg}
+	}
+	panic(modelErr("unknown argv shape " + s.Shape))
+}
+
+// ---------- expectations (the executable model of the contract) ----------
+
+type expectation struct {
+	Pin    string // "" (G1/G2 only) | "16" | "17" | "nonzero+pos" | "nonzero" | "0"
+	Why    string
+	NLines int
+}
+
+func (s *Scenario) srcReadable() bool {
+	switch s.SrcKind {
+	case "missing", "dir", "dangling", "loop", "longname":
+		return false
+	case "mode000":
+		return s.Uid == 0
+	}
+	return true
+}
+
+func (s *Scenario) dstCreatable() bool {
+	switch s.DstKind {
+	case "parent_missing", "parent_is_file", "is_dir", "longname":
+		return false
+	case "ro_file", "ro_dir":
+		return s.Uid == 0
+	}
+	return true
+}
+
+func (s *Scenario) expect(imageClass string, nlines int) expectation {
+	e := expectation{NLines: nlines}
+	if s.Fault != nil {
+		e.Why = "fault plan active: only G1/G2"
+		return e
+	}
+	switch s.Shape {
+	case "none", "src":
+		e.Pin, e.Why = "16", "R1: fewer than two positionals"
+		return e
+	case "src-dst":
+	case "src-dst-lst":
+		if s.LstKind != "ok" {
+			e.Why = "third positional not creatable: only G1/G2"
+			return e
+		}
+	default:
+		e.Why = "argv shape " + s.Shape + " not pinned by the statement: only G1/G2"
+		return e
+	}
+	if s.DstKind == "dev_full" {
+		e.Why = "/dev/full: status after a write failure is not pinned"
+		return e
+	}
+	var clauses []string
+	if !s.srcReadable() {
+		clauses = append(clauses, "17")
+	} else if imageClass == "parse_error" {
+		clauses = append(clauses, "nonzero+pos")
+	} else if imageClass != "ok" {
+		e.Why = "program is not assembled normally by the in-process API (" + imageClass + "): only G1/G2"
+		return e
+	}
+	if !s.dstCreatable() {
+		clauses = append(clauses, "17")
+	}
+	switch {
+	case len(clauses) == 0:
+		e.Pin, e.Why = "0", "R5: everything fine"
+	case len(clauses) == 1:
+		e.Pin, e.Why = clauses[0], "R2/R3/R4: single failing clause"
+	case clauses[0] == "17" && clauses[1] == "17":
+		e.Pin, e.Why = "17", "R2+R4: both clauses give 17"
+	default:
+		e.Pin, e.Why = "nonzero", "two clauses apply: any non-zero status"
+	}
+	return e
+}
+
+var posRe = regexp.MustCompile(`(\d+):(\d+)`)
+
+// judge applies G1, G2 and the pinned status. image may be nil when imageClass != ok.
+func judge(s *Scenario, e expectation, o *ScenarioOutcome, image []byte, imageClass string) *Violation {
+	mk := func(class, detail, exp, obs string) *Violation {
+		return &Violation{Property: "C19", Class: class, Detail: detail, Expected: exp, Observed: obs}
+	}
+	imgDesc := "n/a"
+	if imageClass == "ok" {
+		imgDesc = fmt.Sprintf("file:%s:%d", shaHex(image), len(image))
+	}
+	if s.DstKind == "dev_full" {
+		if o.Exit == 0 && imageClass == "ok" && len(image) > 0 && (s.Shape == "src-dst" || s.Shape == "src-dst-lst" || s.Shape == "d-src-dst" || s.Shape == "four") && s.srcReadable() {
+			return mk("G1-exit0-without-image", "exit 0 although the image cannot have been written to /dev/full", "non-zero status", "exit 0")
+		}
+	} else {
+		writes := s.Shape == "src-dst" || s.Shape == "src-dst-lst" || s.Shape == "d-src-dst" || s.Shape == "four" || s.Shape == "badflag"
+		if o.Exit == 0 && writes {
+			// G1: success means exactly the image
+			if imageClass == "ok" && o.DstPost != imgDesc {
+				return mk("G1-exit0-wrong-output", "exit status 0 but the output file does not hold exactly the bytes the in-process API assembles from the comment-free form", imgDesc, o.DstPost)
+			}
+			if imageClass == "parse_error" {
+				return mk("G1-exit0-on-parse-error", "exit status 0 although the source does not parse", "non-zero status with a position", fmt.Sprintf("exit 0, dst %s", o.DstPost))
+			}
+		}
+		if o.Exit != 0 {
+			// G2: failure never leaves a partially assembled image
+			ok := o.DstPost == o.DstPre || o.DstPost == "absent" || strings.HasSuffix(o.DstPost, ":0") && strings.HasPrefix(o.DstPost, "file:") || (imageClass == "ok" && o.DstPost == imgDesc)
+			if !ok {
+				kind := "other-content"
+				if imageClass == "ok" && strings.HasPrefix(o.DstPost, "file:") {
+					if b, err := os.ReadFile(o.dstAbsForJudge); err == nil && len(b) < len(image) && bytes.Equal(b, image[:len(b)]) {
+						kind = "proper-prefix"
+					} else if err == nil && len(b) > len(image) && bytes.Equal(b[:len(image)], image) {
+						kind = "image-plus-stale-tail"
+					}
+				}
+				o.PartialKind = kind
+				v := mk("G2-partial-image", fmt.Sprintf("the run failed (exit %d) and left a partially assembled / foreign image in the output file (%s); allowed: unchanged, absent, empty, or the full image", o.Exit, kind),
+					"dst in {"+o.DstPre+", absent, empty, "+imgDesc+"}", o.DstPost)
+				return v
+			}
+		}
+	}
+	switch e.Pin {
+	case "16", "17":
+		if strconv.Itoa(o.Exit) != e.Pin {
+			return mk("R-exit-status", e.Why, "exit "+e.Pin, fmt.Sprintf("exit %d; output: %s", o.Exit, clipS(o.Output, 160)))
+		}
+	case "0":
+		if o.Exit != 0 {
+			return mk("R5-success-expected", e.Why+"; CLI failed where the in-process API assembles the comment-free form", "exit 0", fmt.Sprintf("exit %d; output: %s", o.Exit, clipS(o.Output, 200)))
+		}
+	case "nonzero":
+		if o.Exit == 0 {
+			return mk("R-exit-status", e.Why, "non-zero", "exit 0")
+		}
+	case "nonzero+pos":
+		if o.Exit == 0 {
+			return mk("R3-parse-error-status", "source does not parse but exit status is 0", "non-zero", "exit 0")
+		}
+		okPos := false
+		for _, m := range posRe.FindAllStringSubmatch(o.Output, -1) {
+			ln, _ := strconv.Atoi(m[1])
+			if ln >= 1 && ln <= e.NLines+1 {
+				okPos = true
+				break
+			}
+		}
+		if !okPos {
+			return mk("R3-parse-error-position", "parse error reported without a line:column position inside the file", fmt.Sprintf("a position line:col with 1<=line<=%d", e.NLines+1), clipS(o.Output, 200))
+		}
+	}
+	return nil
+}
+
+func clipS(s string, n int) string {
+	if len(s) > n {
+		return s[:n] + "..."
+	}
+	return s
+}
+
+// ---------- running ----------
+
+type c19Ctx struct {
+	sim      *simCtx
+	imgMu    sync.Mutex
+	imgCache map[string]*imgEntry
+}
+
+type imgEntry struct {
+	once  sync.Once
+	class string
+	bytes []byte
+}
+
+// imageOf assembles the comment-free form through the in-process API (native worker).
+func (c *c19Ctx) imageOf(plain []byte) (string, []byte) {
+	key := shaHex(plain)
+	c.imgMu.Lock()
+	e := c.imgCache[key]
+	if e == nil {
+		e = &imgEntry{}
+		c.imgCache[key] = e
+	}
+	c.imgMu.Unlock()
+	e.once.Do(func() {
+		spec := &RunSpec{Variant: "native", ProgKeys: []string{key}}
+		spec.Script = Script{Sources: []string{base64.StdEncoding.EncodeToString(plain)}, Paths: []string{"image.out"}, Ops: []Op{{Op: "parse", P: 0, T: 0}, {Op: "exec", T: 0, D: 0}}}
+		var img []byte
+		res := c.sim.runSpecKeep(spec, func(dir string, sc *Script) {
+			img, _ = os.ReadFile(filepath.Join(dir, "image.out"))
+		})
+		o, _ := refOutcomeOf(res)
+		switch {
+		case o.ParseClass == "parse_error":
+			e.class = "parse_error"
+		case o.ParseClass == "ok" && o.ExecClass == "ok":
+			e.class, e.bytes = "ok", img
+			if shaHex(img) != o.Sha {
+				infraFail("image read-back mismatch")
+			}
+		default:
+			e.class = "abnormal:" + o.ParseClass + "/" + o.ExecClass
+		}
+	})
+	return e.class, e.bytes
+}
+
+func (o *ScenarioOutcome) setDstAbs(p string) { o.dstAbsForJudge = p }
+
+const cliWatchdog = 90 * time.Second
+
+func (c *c19Ctx) execute(s *Scenario, keepDir bool) (out *ScenarioOutcome, viol *Violation, err error) {
+	defer func() {
+		if r := recover(); r != nil {
+			if me, ok := r.(modelErr); ok {
+				err = me
+				return
+			}
+			panic(r)
+		}
+	}()
+	t0 := time.Now()
+	src, plain := s.materialise()
+	imageClass, image := c.imageOf(plain)
+	dir := c.sim.newRunDir()
+	if !keepDir {
+		defer func() {
+			// make everything removable again
+			filepath.Walk(dir, func(p string, info os.FileInfo, err error) error {
+				if err == nil && info.IsDir() {
+					os.Chmod(p, 0777)
+				}
+				return nil
+			})
+			os.RemoveAll(dir)
+		}()
+	}
+	os.Chmod(dir, 0777)
+	W := filepath.Join(dir, "w")
+	wp, _ := s.buildWorld(W, src, image)
+	argv := s.argv(wp)
+	out = &ScenarioOutcome{Argv: argv, ImageClass: imageClass, ImageLen: len(image)}
+	if imageClass == "ok" {
+		out.ImageSha = shaHex(image)
+	}
+	out.setDstAbs(wp.DstAbs)
+	if s.DstKind != "dev_full" {
+		out.DstPre = describePath(wp.DstAbs)
+	} else {
+		out.DstPre = "dev_full"
+	}
+	pre := snapshotWorld(W)
+	run := func(f *Fault) (ProcResult, int, []string) {
+		var cmd []string
+		logp := filepath.Join(dir, "strace.log")
+		os.Remove(logp)
+		if s.Uid != 0 {
+			cmd = append(cmd, "setpriv", fmt.Sprintf("--reuid=%d", s.Uid), fmt.Sprintf("--regid=%d", s.Uid), "--clear-groups")
+		}
+		if f != nil {
+			switch f.Kind {
+			case "fsize":
+				cmd = append(cmd, "prlimit", fmt.Sprintf("--fsize=%d", f.K))
+			case "nofile":
+				cmd = append(cmd, "prlimit", fmt.Sprintf("--nofile=%d", f.K))
+			case "strace":
+				target := wp.SrcArg
+				if f.Target == "dst" {
+					target = wp.DstArg
+				}
+				if !filepath.IsAbs(target) {
+					target = filepath.Join(W, target)
+				}
+				cmd = append(cmd, "strace", "-f", "-o", logp, "-e", "trace=openat,read,write,newfstatat,fstat,close",
+					"-e", fmt.Sprintf("inject=%s:error=%s:when=%d", f.Syscall, f.Errno, f.When), "-P", target)
+			}
+		}
+		cmd = append(cmd, c.sim.b.Cli)
+		cmd = append(cmd, argv...)
+		out.Cmdline = cmd
+		pr := runProc(cliWatchdog, W, baseEnv("GOMAXPROCS=1", "HOME=/nonexistent"), cmd...)
+		if pr.TimedOut {
+			infraFail("gosk CLI watchdog expired: %v", cmd)
+		}
+		if pr.StartErr != "" {
+			infraFail("cannot start %v: %s", cmd, pr.StartErr)
+		}
+		fired := 0
+		var lines []string
+		if f != nil && f.Kind == "strace" {
+			if b, err := os.ReadFile(logp); err == nil {
+				for _, l := range strings.Split(string(b), "\n") {
+					if strings.Contains(l, "(INJECTED)") {
+						fired++
+						lines = append(lines, clipS(l, 200))
+					}
+				}
+			} else {
+				infraFail("strace log missing: %v (stderr %s)", err, clip(pr.Stderr, 300))
+			}
+		}
+		return pr, fired, lines
+	}
+	pr, fired, flines := run(s.Fault)
+	out.Exit, out.Signal = pr.Exit, pr.Signal
+	out.Output = clip(append(append([]byte{}, pr.Stdout...), pr.Stderr...), 1500)
+	out.FaultFired, out.FaultLines = fired, flines
+	if s.Fault != nil && (s.Fault.Kind == "fsize" || s.Fault.Kind == "nofile") {
+		// an rlimit "fires" when the outcome differs from plain success
+		if pr.Exit != 0 {
+			out.FaultFired = 1
+		}
+	}
+	if s.DstKind != "dev_full" {
+		out.DstPost = describePath(wp.DstAbs)
+	} else {
+		out.DstPost = "dev_full"
+	}
+	post := snapshotWorld(W)
+	dstRel, _ := filepath.Rel(W, wp.DstAbs)
+	for k, v := range post {
+		if pre[k] != v && k != dstRel && !(s.DstKind == "symlink_file" && k == "out/target.bin") && !(s.DstKind == "dangling_symlink" && k == "out/newtarget.bin") && k != "out" && k != "." {
+			out.WorldChanges = append(out.WorldChanges, k+": "+pre[k]+" -> "+v)
+		}
+	}
+	for k, v := range pre {
+		if _, ok := post[k]; !ok && k != dstRel {
+			out.WorldChanges = append(out.WorldChanges, k+": "+v+" -> gone")
+		}
+	}
+	sort.Strings(out.WorldChanges)
+	nlines := bytes.Count(src, []byte("\n")) + 1
+	e := s.expect(imageClass, nlines)
+	out.Expect = e.Pin + " (" + e.Why + ")"
+	if pr.Signal != "" {
+		// killed by a signal: the process chose no status; record, judge by G2 only
+		out.Expect += " [terminated by signal " + pr.Signal + "]"
+	}
+	viol = judge(s, e, out, image, imageClass)
+	// heal step: once the fault stops, the same command must succeed on the world left behind
+	if viol == nil && s.Fault != nil && s.SrcKind != "same_as_dst" { // (with src == dst the first run consumed its own source)
+		s2 := *s
+		s2.Fault = nil
+		e2 := s2.expect(imageClass, nlines)
+		if e2.Pin == "0" {
+			pr2, _, _ := run(nil)
+			hx := pr2.Exit
+			out.HealExit = &hx
+			out.HealDstPost = describePath(wp.DstAbs)
+			imgDesc := fmt.Sprintf("file:%s:%d", shaHex(image), len(image))
+			if pr2.Exit != 0 || out.HealDstPost != imgDesc {
+				viol = &Violation{Property: "C19", Class: "H-no-recovery-after-fault", Detail: "after a faulted run, the same command run fault-free on the world left behind did not succeed with exactly the image",
+					Expected: "exit 0, " + imgDesc, Observed: fmt.Sprintf("exit %d, %s; output: %s", pr2.Exit, out.HealDstPost, clip(append(pr2.Stdout, pr2.Stderr...), 200))}
+			}
+		}
+	}
+	out.WallMs = time.Since(t0).Milliseconds()
+	return out, viol, nil
+}
